@@ -91,7 +91,7 @@ def build_response(request, kind, params):
         for i in range(links):
             tgt = dns.name.from_text(f"c{i}.target.example.")
             rr = r.find_rrset(r.answer, name, q.rdclass, dns.rdatatype.CNAME, create=True)
-            rr.add(dns.rdata.from_text("IN", "CNAME", tgt.to_text()), cttls[i % len(cttls)])
+            rr.add(dns.rdata.from_text(q.rdclass, "CNAME", tgt.to_text()), cttls[i % len(cttls)])
             name = tgt
         if kind != "chain-too-long":
             rr = r.find_rrset(r.answer, name, q.rdclass, q.rdtype, create=True)
@@ -103,7 +103,7 @@ def build_response(request, kind, params):
         if params.get("soa", True):
             zone = dns.name.Name(q.name.labels[-2:]) if len(q.name) > 2 else q.name
             rr = r.find_rrset(r.authority, zone, q.rdclass, dns.rdatatype.SOA, create=True)
-            rr.add(dns.rdata.from_text("IN", "SOA", f"ns. h. 1 2 3 4 {params.get('minimum', 77)}"), params.get("soa_ttl", 500))
+            rr.add(dns.rdata.from_text(q.rdclass, "SOA", f"ns. h. 1 2 3 4 {params.get('minimum', 77)}"), params.get("soa_ttl", 500))
         if kind == "nxdomain":
             r.set_rcode(dns.rcode.NXDOMAIN)
     elif kind == "servfail":
@@ -328,11 +328,11 @@ def make_resolver(cls, cfg, script, clock):
 class FakeAnswer:
     """pre-seeded cache entries"""
 
-    def __init__(self, kind, expiration, qname):
+    def __init__(self, kind, expiration, qname, rdtype="A", rdclass="IN"):
         self.expiration = expiration
         self.kind = kind
-        self.rrset = None if kind != "answer" else dns.rrset.from_text(qname, 60, "IN", "A", "10.9.9.9")
-        q = dns.message.make_query(qname, "A")
+        self.rrset = None if kind != "answer" else dns.rrset.from_text(qname, 60, rdclass, rdtype, {"A": "10.9.9.9", "AAAA": "2001:db8::9", "TXT": '"seed"'}[rdtype])
+        q = dns.message.make_query(qname, rdtype, rdclass)
         self.response = dns.message.make_response(q)
         if kind == "nxdomain":
             self.response.set_rcode(dns.rcode.NXDOMAIN)
@@ -341,8 +341,8 @@ class FakeAnswer:
 
 def preseed(res, cfg):
     for (qt, which), (kind, exp) in cfg["preseed"].items():
-        key = (dns.name.from_text(qt), dns.rdatatype.A if which == "T" else dns.rdatatype.ANY, dns.rdataclass.IN)
-        res.cache.put(key, FakeAnswer(kind, exp, qt))
+        key = (dns.name.from_text(qt), dns.rdatatype.from_text(cfg["rdtype"]) if which == "T" else dns.rdatatype.ANY, dns.rdataclass.from_text(cfg["rdclass"]))
+        res.cache.put(key, FakeAnswer(kind, exp, qt, cfg["rdtype"], cfg["rdclass"]))
 
 
 def classify_result(fn, clock):
@@ -373,7 +373,7 @@ def run_sync(cfg, outcomes):
         if res.cache is not None:
             preseed(res, cfg)
         q = dns.name.Name(cfg["qname"])
-        result = classify_result(lambda: res.resolve(q, "A", tcp=cfg["tcp"], raise_on_no_answer=cfg["raise_on_no_answer"], search=cfg["search"]), clock)
+        result = classify_result(lambda: res.resolve(q, cfg["rdtype"], cfg["rdclass"], tcp=cfg["tcp"], raise_on_no_answer=cfg["raise_on_no_answer"], search=cfg["search"]), clock)
         cache_state = cache_probe(res, cfg, clock)
     return script.log, result, cache_state, clock.now
 
@@ -389,7 +389,7 @@ def run_async(cfg, outcomes):
         backend = FakeBackend(clock)
 
         async def go():
-            return await res.resolve(q, "A", tcp=cfg["tcp"], raise_on_no_answer=cfg["raise_on_no_answer"], search=cfg["search"], backend=backend)
+            return await res.resolve(q, cfg["rdtype"], cfg["rdclass"], tcp=cfg["tcp"], raise_on_no_answer=cfg["raise_on_no_answer"], search=cfg["search"], backend=backend)
 
         holder = {}
 
@@ -413,14 +413,18 @@ def cache_probe(res, cfg, clock):
     cands = candidates(cfg["qname"], cfg["absolute"], cfg["search"], cfg["search_list"], cfg["domain"], cfg["ndots"])
     for c in cands:
         n = dns.name.Name(c)
-        for which, t in (("T", dns.rdatatype.A), ("ANY", dns.rdatatype.ANY)):
-            a = res.cache.get((n, t, dns.rdataclass.IN))
-            if a is not None:
-                if isinstance(a, FakeAnswer):
-                    k = a.kind
-                else:
-                    k = "nxdomain" if a.response.rcode() == dns.rcode.NXDOMAIN else ("answer" if a.rrset is not None else "nodata")
-                out[(n.to_text(), which)] = (k, round(a.expiration, 6))
+        # every (type, class) the cache could have been keyed with: only the queried type (or ANY, for name errors) in the
+        # queried class may hold anything
+        for tt in ("A", "AAAA", "TXT", "ANY"):
+            for cc in ("IN", "CH", "HS"):
+                a = res.cache.get((n, dns.rdatatype.from_text(tt), dns.rdataclass.from_text(cc)))
+                if a is not None:
+                    if isinstance(a, FakeAnswer):
+                        k = a.kind
+                    else:
+                        k = "nxdomain" if a.response.rcode() == dns.rcode.NXDOMAIN else ("answer" if a.rrset is not None else "nodata")
+                    which = "T" if (tt, cc) == (cfg["rdtype"], cfg["rdclass"]) else "ANY" if (tt, cc) == ("ANY", cfg["rdclass"]) else f"other-key:{tt}/{cc}"
+                    out[(n.to_text(), which)] = (k, round(a.expiration, 6))
     return out
 
 
@@ -438,8 +442,11 @@ def gen_cfg(rng):
         "nservers": nservers, "always_tcp": [rng.random() < 0.15 for _ in range(nservers)], "qname": q, "absolute": absolute,
         "search": rng.choice((True, True, False)), "search_list": search_list, "domain": rng.choice((None, (b"",), (b"dom", b"test", b""))),
         "ndots": rng.choice((None, 0, 1, 2, 3)), "retry_servfail": rng.random() < 0.4, "tcp": rng.random() < 0.2, "raise_on_no_answer": rng.random() < 0.6,
+        "rdtype": "A", "rdclass": "IN",
         "cache": rng.choice((None, None, "cache", "lru")), "lifetime": rng.choice((0.5, 2.0, 5.0, 10.0)), "timeout": rng.choice((0.3, 1.0, 2.0)), "start": start, "preseed": {},
     }
+    if rng.random() < 0.4:
+        cfg["rdtype"], cfg["rdclass"] = rng.choice((("AAAA", "IN"), ("TXT", "IN"), ("TXT", "CH"), ("TXT", "CH"), ("TXT", "HS")))
     if cfg["cache"] and rng.random() < 0.5:
         cands = candidates(q, absolute, cfg["search"], search_list, cfg["domain"], cfg["ndots"])
         for c in cands:
@@ -475,7 +482,7 @@ def check_case(ctx, cfg, outcomes, tag):
         ctx.violation("resolver-raised-unexpected:" + core.exc_sig(e), repr(e), case)
         return
     ctx.count("mon.sync_vs_reference")
-    ctx.seen((tag, tuple(o[0] for o in outcomes[:4]), cfg["nservers"], cfg["cache"] is not None, cfg["retry_servfail"], result[0]))
+    ctx.seen((tag, tuple(o[0] for o in outcomes[:4]), cfg["nservers"], cfg["cache"] is not None, cfg["retry_servfail"], result[0], cfg["rdtype"] + "/" + cfg["rdclass"]))
     if log != ref_log:
         i = next((k for k in range(min(len(log), len(ref_log))) if log[k] != ref_log[k]), min(len(log), len(ref_log)))
         a = log[i] if i < len(log) else None
@@ -554,7 +561,7 @@ def run(spec, ctx):
             ctx.sample({"outcomes": [o[0] for o in outcomes], "nservers": cfg["nservers"], "search_list": [dns.name.Name(s).to_text() for s in cfg["search_list"]], "qname": dns.name.Name(cfg["qname"]).to_text()})
     # exhaustive: 2 servers x all scripts of length <= L over 8 outcome kinds
     base = {"nservers": 2, "always_tcp": [False, False], "qname": (b"www", b"example", b""), "absolute": True, "search": False, "search_list": [], "domain": None, "ndots": None,
-            "retry_servfail": False, "tcp": False, "raise_on_no_answer": True, "cache": None, "lifetime": 5.0, "timeout": 2.0, "start": 1_000_000.0, "preseed": {}}
+            "retry_servfail": False, "tcp": False, "raise_on_no_answer": True, "rdtype": "A", "rdclass": "IN", "cache": None, "lifetime": 5.0, "timeout": 2.0, "start": 1_000_000.0, "preseed": {}}
     idx = 0
     complete = True
     for L in range(0, spec["exh_len"] + 1):
